@@ -5,6 +5,7 @@
 import re, os
 from tools import cxx2c
 from tools.cxx2c import Lower, Unsupported, kids, qt, qt_sugar, strip, strip_parens, callee_name, norm_type, walk
+from tools.cxx2c import REPO as _REPO
 import json
 
 
@@ -12,7 +13,7 @@ def json_dumps(x):
     return json.dumps(x)
 
 NAME = 'OBJM'
-SRC = '/repo/src/bloch/runtime/runtime_evaluator.cpp'
+SRC = _REPO + '/src/bloch/runtime/runtime_evaluator.cpp'
 NAMESPACE = 'bloch::runtime'
 FUNCS = []
 AST_FILTER = ['RuntimeEvaluator::destroyObject', 'RuntimeEvaluator::beginScope', 'bloch::runtime::Value', 'RuntimeEvaluator::exec', 'RuntimeEvaluator::eval', 'RuntimeEvaluator::runConstructorChain']
